@@ -69,6 +69,9 @@ def bound_scenario(rng, negative_dvalue=False):
     exploits = {f"e{i}": dict(service=x, os=None, prob=rng.choice([1.0, 0.8]), cost=rng.choice([1, 1, 2, 1.5]),
                               access=rng.choice([2, 2, 1])) for i, x in enumerate(svc_l)}
     privescs = {"pe0": dict(process="p0", os=None, prob=1.0, cost=rng.choice([1, 2]), access=2)}
+    if rng.random() < 0.4:
+        # an escalation that grants user access only (the documented format allows it)
+        privescs["pe1"] = dict(process="p0", os=None, prob=1.0, cost=1, access=1)
     d = {u.SUBNETS: subnets, u.TOPOLOGY: topo, u.OS: os_l, u.SERVICES: svc_l, u.PROCESSES: proc_l,
          u.SENSITIVE_HOSTS: sens, u.EXPLOITS: exploits, u.PRIVESCS: privescs,
          u.SERVICE_SCAN_COST: 1, u.OS_SCAN_COST: 1, u.SUBNET_SCAN_COST: rng.choice([1, 2]),
